@@ -44,7 +44,9 @@ class Dev:
     fault_at      : symbolic operation index at which the operation fails with an error (or None)
     """
 
-    def __init__(self, name, content, length, pos, mode="total", fault_at=None, max_len=None):
+    def __init__(self, name, content, length, pos, mode="total", fault_at=None, max_len=None, max_short=2):
+        self.max_short = max_short  # bound: only the first max_short transfers may be short
+        self.ks = []
         self.name = name
         self.content = content      # Buf (length = device length)
         self.pos = bv64(pos)
@@ -70,11 +72,12 @@ class Dev:
 
     def _k(self, I, n, what):
         """number of bytes actually transferred for a request of n (n > 0)"""
-        if self.mode != "short":
+        if self.mode != "short" or self.fresh >= self.max_short:
             return n
         self.fresh += 1
         k = narrow_k("%s_k%d_%s" % (self.name, self.fresh, what), n)
         I.path.assume(z3.And(z3.UGE(k, U64(1)), z3.ULE(k, n)))
+        self.ks.append((what, k))
         return k
 
     def read(self, I, sl):
